@@ -61,6 +61,9 @@ def failOutcome (kind : String) (a b : Int) : Outcome :=
   | "qpanicdep" => .depsFailed [1]
   -- sh.Exec whose output writer fails although the command exits 0: a plain error, not an exit status
   | "shwriter" => .err none
+  -- one failing dependency of each supported signature, through each Deps form (the code is never 0 here)
+  | "sigplain" | "sigctx" | "sigctxc" | "sigser" | "sigf" | "sigctxarg" | "sigctxpanic" | "sigplainpanic" => .depsFailed [a]
+  | "sigctxplain" => .depsFailed [1]
   | _ => .ok
 
 def outcomeOf (c : Call) : Outcome :=
